@@ -22,7 +22,10 @@ RULE = ("cases: (class ∈ {independent, correlated, model list}, input dim 1–
         "(add without update), forget (clear+update), swap (clear, then as many other samples), eqcount_* (after a "
         "clear every objective is re-filled with exactly its previous count: other inputs / same inputs other values "
         "/ equal count for some objectives only / one sample replaced / twice; helpers with as many initial samples "
-        "as training samples), stale_by_design (predict after clear / add WITHOUT update = posterior of the data "
+        "as training samples), streaming_* (samples handed over as torch tensors / one re-used buffer pair that the caller "
+        "overwrites afterwards; every add op of every history uses one of the containers numpy f64/f32/int, torch "
+        "f64/f32, re-used buffer, and the harness scribbles over its containers after add_sample and after update), "
+        "stale_by_design (predict after clear / add WITHOUT update = posterior of the data "
         "at the last update), task-noise matrices full / diagonal with unequal entries / block diagonal / s·I, requery (getters queried before and after the hyper-parameters change by a train() "
         "with patched fit or by setting them, predictions under the current kernel; also on helper models), grow (variance monotone), empty, random, big "
         "(25–50 samples), single test point, perm (same multiset, other order/batching), local (model list: "
@@ -268,7 +271,88 @@ def _requery_case(rng, tier, cls=None):
     return case
 
 
+def _assign_conts(rng, case):
+    """one container kind per add op (numpy float64 / float32 / int targets, torch float64 / float32, re-used
+    streaming buffers); values of batches that go through 32-bit or integer containers are rounded in the log so
+    that the container holds them exactly"""
+    if "conts" in case:
+        return case
+    adds = [op for op in case["ops"] if op[0] in (0, 4)]
+    conts = [rng.choice(["np64", "np64", "t64", "t64", "t64", "buf64", "buf64", "t32", "np32", "buf32", "npintY"])
+             for _ in adds] or ["np64"]
+    mlist = case["cls"] == "mlist"
+    for kinds, rnd in ((("npintY",), lambda v: float(round(v))),
+                       (("np32", "t32", "buf32"), lambda v: float(np.float32(v)))):
+        for op, kd in zip(adds, conts):
+            if kd in kinds:
+                for sid in (op[1:] if op[0] == 0 else op[2:]):
+                    smp = case["samples"][sid]
+                    if mlist:
+                        smp[1] = rnd(smp[1])
+                    else:
+                        smp[1:] = [rnd(v) for v in smp[1:]]
+    case["conts"] = conts
+    return case
+
+
+def _streaming_case(rng, tier, cls, variant):
+    """The caller hands its samples over as torch tensors it keeps using:
+    buffer — three equal-size batches through ONE pre-allocated X / Y tensor pair (first batches of that objective /
+    of the wrapper; model list: integer dim_index), compared with the same samples added in one fresh batch;
+    empty_update — update() without samples, then the first observations as torch tensors, update, the caller
+    rescales its tensors, predict at one point; after_clear — the same for the first batch after clear_data()."""
+    d = rng.choice([1, 2, 2, 3])
+    m = rng.choice([2, 2, 3])
+    k = rng.randint(2, 4)
+    n0 = rng.randint(1, 4)
+    T = 1 if variant == "empty_update" else rng.choice([1, 2, 3])
+    n = n0 + 3 * k
+    P = _points(rng, d, n, 4) + _points(rng, d, T, 5)
+    test = list(range(n, n + T))
+    j1 = rng.randrange(m)
+    j0 = (j1 + 1) % m
+    samples = []
+    for sid in range(n):
+        if cls == "mlist":
+            samples.append([sid, _val(rng), j0 if sid < n0 else j1])
+        else:
+            samples.append([sid] + [_val(rng) for _ in range(m)])
+    first = list(range(n0))
+    B = [list(range(n0 + i * k, n0 + (i + 1) * k)) for i in range(3)]
+    add = (lambda j, b: [4, j] + b) if cls == "mlist" else (lambda j, b: [0] + b)
+    pred = [3] + test
+    case = {"kind": "direct", "cls": cls, "d": d, "m": m, "noise": _noise(rng, cls, m), "hyp": _hyp(rng, cls, d, m),
+            "P": P, "samples": samples, "shape": "streaming_" + variant, "xcol": rng.random() < 0.3, "mono": False}
+    buf = rng.choice(["buf64", "buf64", "buf32"])
+    ten = rng.choice(["t64", "t64", "t32"])
+    if buf == "buf32" or ten == "t32":
+        for smp in samples:
+            smp[1:2 if cls == "mlist" else None] = [float(np.float32(v)) for v in smp[1:2 if cls == "mlist" else None]]
+    if variant == "buffer":
+        if cls == "mlist":
+            case["ops"] = [add(j0, first)] + [add(j1, b) for b in B] + [[2], pred]
+            case["conts"] = [ten, buf, buf, buf]
+            case["alt_ops"] = [add(j0, first), add(j1, B[0] + B[1] + B[2]), [2], pred]
+        else:
+            case["ops"] = [add(0, b) for b in B] + [add(0, first), [2], pred]
+            case["conts"] = [buf, buf, buf, ten]
+            case["alt_ops"] = [add(0, B[0] + B[1] + B[2] + first), [2], pred]
+    elif variant == "empty_update":
+        case["ops"] = [[2], pred, add(j1, B[0] + B[1]), [2], pred, add(j1, B[2]), [2], pred]
+        case["conts"] = [ten, buf]
+    else:  # after_clear
+        case["ops"] = [add(j0, first), add(j1, B[0]), [2], pred, [1], add(j1, B[1]), add(j1, B[2]), [2], pred]
+        case["conts"] = ["np64", "np64", ten, buf]
+    return case
+
+
 def _direct_case(rng, tier, shape=None, cls=None, noise_kind=None, m=None):
+    if shape is not None and shape.startswith("streaming"):
+        return _streaming_case(rng, tier, cls or rng.choice(["indep", "corr", "mlist"]), shape.split("_", 1)[1])
+    return _assign_conts(rng, _direct_case0(rng, tier, shape=shape, cls=cls, noise_kind=noise_kind, m=m))
+
+
+def _direct_case0(rng, tier, shape=None, cls=None, noise_kind=None, m=None):
     if shape == "stale_by_design":
         return _stale_by_design_case(rng, tier, cls=cls, noise_kind=noise_kind)
     if shape == "requery":
@@ -279,7 +363,10 @@ def _direct_case(rng, tier, shape=None, cls=None, noise_kind=None, m=None):
     d = rng.choice([1, 2, 2, 3])
     m = m or rng.choice([2, 2, 3])
     shape = shape or rng.choice(["basic", "stale", "forget", "grow", "empty", "random", "big", "single", "perm",
-                                 "local", "repeat", "swap", "eqcount", "eqcount", "requery", "stale_by_design"])
+                                 "local", "repeat", "swap", "eqcount", "eqcount", "requery", "stale_by_design",
+                                 "streaming"])
+    if shape == "streaming":
+        return _streaming_case(rng, tier, cls, rng.choice(["buffer", "empty_update", "after_clear"]))
     if shape == "stale_by_design":
         return _stale_by_design_case(rng, tier, cls=cls)
     if shape == "eqcount":
@@ -423,6 +510,8 @@ def gen(ctx):
         structured.append(("d", cls, "requery"))
         structured.append(("d", cls, "stale_by_design"))
         structured.append(("d", cls, "stale_by_design"))
+        for variant in ["buffer", "empty_update", "after_clear"]:
+            structured.append(("d", cls, "streaming_" + variant))
         if cls != "mlist":
             # task-noise matrices without / with only some off-diagonal entries
             for nk, mm, sh in [("diag", 2, "basic"), ("diag", 3, "grow"), ("block", 3, "stale"), ("sI", 2, "swap")]:
@@ -510,6 +599,58 @@ def _with_xcol(X, xcol):
     return X
 
 
+CONTAINERS = ["np64", "np32", "npintY", "t64", "t32", "buf64", "buf32"]
+
+
+def _exact32(a):
+    a = np.asarray(a, dtype=np.float64)
+    return bool(np.array_equal(a.astype(np.float32).astype(np.float64), a))
+
+
+def _scribble(c):
+    """the caller re-uses / edits its own container in place after handing it to the model"""
+    if isinstance(c, torch.Tensor):
+        if c.numel():
+            c.mul_(-7).add_(3)
+    elif c.size:
+        np.multiply(c, -7, out=c)
+        np.add(c, 3, out=c)
+
+
+def _np_view(c):
+    return c.detach().numpy() if isinstance(c, torch.Tensor) else c
+
+
+def _stores(model, cls):
+    """every array the wrapper or its gpytorch model keeps as training data (numpy views, no copies)"""
+    out = []
+    if cls == "mlist":
+        out += [t for t in model.train_inputs] + [t for t in model.train_targets]
+        if model.model is not None:
+            for g in model.model.models:
+                out += list(g.train_inputs or []) + ([g.train_targets] if g.train_targets is not None else [])
+    else:
+        out += [model.train_inputs, model.train_targets]
+        if model.model is not None:
+            out += list(model.model.train_inputs or []) + \
+                ([model.model.train_targets] if model.model.train_targets is not None else [])
+    return [_np_view(t) for t in out if isinstance(t, torch.Tensor)]
+
+
+def _check_alias(ctx, case, model, cls, handed, when):
+    """(F) the model's store must be the model's own memory, not the caller's container"""
+    for st in _stores(model, cls):
+        if st.size == 0:
+            continue
+        for c in handed:
+            v = _np_view(c)
+            if v.size and np.may_share_memory(st, v):
+                _viol(ctx, f"store-aliases-caller-buffer:{CLASSES[cls]}",
+                      f"after {when} the training data kept by {CLASSES[cls]} share memory with a container the caller "
+                      "passed to add_sample (the samples change when the caller re-uses or edits its buffer)", case, kind="F")
+                return
+
+
 class _Run:
     """one real model driven through a history"""
 
@@ -525,6 +666,38 @@ class _Run:
         self.pred_phase = []     # kernel phase of every predict op
         self.phases = []         # (tables, consts) after every change of the hyper-parameters
         self.reports = []        # earlier answers of get_lengthscale_and_var
+        self.handed = []         # every container handed to add_sample (the caller keeps them and writes to them)
+        self.bufs = {}           # streaming buffers: one pre-allocated X / Y tensor per (kind, shape), re-used
+        self.n_add = 0
+
+    def _containers(self, X, Y):
+        """X, Y (float64 numpy, the harness's own log) in the container kind of this add op.  Kinds that cannot hold
+        the values exactly fall back to 64 bit, so the log stays the truth."""
+        conts = self.case.get("conts") or ["np64"]
+        kind = conts[self.n_add % len(conts)]
+        self.n_add += 1
+        if kind in ("np32", "t32", "buf32") and not (_exact32(X) and _exact32(Y)):
+            kind = {"np32": "np64", "t32": "t64", "buf32": "buf64"}[kind]
+        if kind == "npintY" and not np.array_equal(np.round(Y), Y):
+            kind = "np64"
+        if self.ctx is not None:
+            self.ctx.count("container_" + kind)
+        if kind == "np64":
+            return X.copy(), Y.copy(), False
+        if kind == "np32":
+            return X.astype(np.float32), Y.astype(np.float32), False
+        if kind == "npintY":
+            return X.copy(), Y.astype(np.int64), False
+        dt = torch.float32 if kind.endswith("32") else torch.float64
+        if kind.startswith("t"):
+            return torch.tensor(X, dtype=dt), torch.tensor(Y, dtype=dt), False
+        key = (kind, X.shape, Y.shape)
+        if key not in self.bufs:
+            self.bufs[key] = (torch.empty(X.shape, dtype=dt), torch.empty(Y.shape, dtype=dt))
+        bx, by = self.bufs[key]
+        bx.copy_(torch.tensor(X, dtype=dt))      # overwrites the previous batch that went through this buffer
+        by.copy_(torch.tensor(Y, dtype=dt))
+        return bx, by, True
 
     def _new_phase(self, P):
         self.phases.append((_tables(self.model, self.cls, P, self.m), _consts(self.model, self.cls, self.m)))
@@ -537,14 +710,27 @@ class _Run:
             if cls == "mlist":
                 Y = np.array([samples[s][1] for s in ss], dtype=float)
                 idx = [int(samples[s][2]) for s in ss] if op[0] == 0 else int(op[1])
-                self.model.add_sample(X, Y, idx)
+                Xc, Yc, is_buf = self._containers(X, Y)
+                self.model.add_sample(Xc, Yc, idx)
             else:
                 Y = np.array([samples[s][1:] for s in ss], dtype=float).reshape(len(ss), m)
-                self.model.add_sample(X, Y)
+                Xc, Yc, is_buf = self._containers(X, Y)
+                self.model.add_sample(Xc, Yc)
+            if not any(Xc is h for h in self.handed):
+                self.handed += [Xc, Yc]
+            if self.ctx is not None:
+                _check_alias(self.ctx, self.case, self.model, cls, self.handed, "add_sample")
+            if not is_buf:          # a streaming buffer is overwritten by its next batch (and after update())
+                _scribble(Xc)
+                _scribble(Yc)
         elif op[0] == 1:
             self.model.clear_data()
         elif op[0] == 2:
             self.model.update()
+            if self.ctx is not None:
+                _check_alias(self.ctx, self.case, self.model, cls, self.handed, "update")
+            for c in self.handed:   # … and the caller edits all its containers again after the update
+                _scribble(c)
             if not self.hyp_set:
                 _set_hyp_gp(self.model.model, cls, self.case["hyp"], d, m)
                 self.hyp_set = True
@@ -944,7 +1130,7 @@ def _run_direct(ctx, case):
             p1, p2 = run.preds[-1], run2.preds[-1]
             if p1[0] == "ok" and p2[0] == "ok":
                 mu1, var1, mu2, var2 = p1[1], p1[2], p2[1], p2[2]
-                if case["shape"] == "perm":
+                if case["shape"] in ("perm", "streaming_buffer"):
                     _, c2, _, _ = _lean_state(ctx, case, _lean_ops(case["alt_ops"]))
                     if sorted(map(sorted, cond)) == sorted(map(sorted, c2)):
                         if not (_close(mu1, mu2) and _close(var1, var2)):
@@ -998,21 +1184,28 @@ def _run_helper(ctx, case):
 
     saved = vg.fit_gpytorch_mll
     vg.fit_gpytorch_mll = fake_fit
+    Xc, Yc = X.copy(), Y.copy()      # the caller's arrays (edited below, after the helper returned)
     try:
         try:
             if case["helper"] == "mlist":
-                model = vg.get_gpytorch_modellist_w_known_hyperparams(_StubProblem(X, Y), nz, k, X=X.copy(), Y=Y.copy())
+                model = vg.get_gpytorch_modellist_w_known_hyperparams(_StubProblem(X, Y), nz, k, X=Xc, Y=Yc)
             else:
                 model = vg.get_gpytorch_model_w_known_hyperparams(getattr(vg, CLASSES[cls]), _StubProblem(X, Y), nz, k,
-                                                                  X=X.copy(), Y=Y.copy())
+                                                                  X=Xc, Y=Yc)
         except Exception as e:  # noqa: BLE001
             _viol(ctx, f"helper-crash:{hname}:{core.exc_key(e)}", f"{hname} raised {type(e).__name__}: {str(e)[:160]}", case)
             ctx.case_done(case, True)
             return
     finally:
         vg.fit_gpytorch_mll = saved
-    # reported data → samples
-    held = _held_rows(model, cls)
+    # reported data → samples (copied), then the caller edits its own arrays
+    held = [(np.array(hx, copy=True), np.array(hy, copy=True)) for hx, hy in _held_rows(model, cls)]
+    _check_alias(ctx, case, model, cls, [Xc, Yc], hname)
+    _scribble(Xc)
+    _scribble(Yc)
+    if not _same_rows(_held_rows(model, cls), held):
+        _viol(ctx, f"store-aliases-caller-buffer:{cname}", f"the data reported by the model {hname} returned changed when "
+              "the caller edited the X / Y arrays it had passed in", case, kind="F")
     test = case["test"]
     P = [list(map(float, r)) for r in X]
     samples, init_ids, train_batches = [], [], []
